@@ -153,6 +153,18 @@ def _check_built(u, vs, before, order, pairs, cls, known_universes):
             got = [pi.get(id(x), "?") for x in helpers.neighbors(v, d, helpers.LNK_UNKNOWN_NEIGHBOR)]
             exp = _rn(G_all, pi[id(v)], d, 1, None)
             require(got == exp, "readback-neighbors", f"vertex {i} direction {d}: plain neighbors() gives {got}, the links say {exp}")
+        # ... and with the DEFAULT arguments (FORWARD, LNK_UNKNOWN_ERROR), which is what most callers use
+        from eglib.model import RefNotImplemented as _RNI
+
+        try:
+            exp = _rn(G_all, pi[id(v)], 0, 2, None)
+        except _RNI:
+            exp = "NIE"
+        try:
+            got = [pi.get(id(x), "?") for x in helpers.neighbors(v)]
+        except NotImplementedError:
+            got = "NIE"
+        require(got == exp, "readback-neighbors", f"vertex {i}: neighbors(v) with default arguments gives {got}, the links say {exp}")
     # read-back through the query API (new links only: filter on identity)
     newids = {id(l) for l in new}
     kind = C.KIND[want]
